@@ -6,6 +6,7 @@ import (
 	"math"
 	"strings"
 	"time"
+	"unicode/utf8"
 
 	sdk "github.com/cosmos/cosmos-sdk/types"
 
@@ -43,6 +44,37 @@ type contentCase struct {
 	want func(unix int64) (payload []byte, canon string, ok bool)
 	// decode independently decodes a payload and compares with the on-chain values.
 	decode func(payload []byte, unix int64) error
+	// mustReject is non-empty when no payload can carry the on-chain values (a signal id longer than
+	// 32 bytes does not fit a bytes32): the input has to be refused, never encoded in a truncated form.
+	mustReject string
+}
+
+// oversize returns the reason when some signal id does not fit a bytes32.
+func oversize(states []feedState) string {
+	for _, s := range states {
+		if len(s.ID) > 32 {
+			return fmt.Sprintf("signal id %q is %d bytes (%d characters) and does not fit a bytes32", s.ID, len(s.ID), utf8.RuneCountInString(s.ID))
+		}
+	}
+	return ""
+}
+
+// multiByteIDs are signal ids around the 32-byte limit built from 2-, 3- and 4-byte runes (padded
+// with ASCII to the exact byte length), plus for each rune an id of 32+w bytes whose last 32 bytes
+// are themselves a legal id (a truncating encoder makes the two collide).
+func multiByteIDs() (legal, tooLong []string) {
+	for _, r := range []string{"\u00e9", "\u20ac", "\U0001F600"} {
+		w := len(r)
+		mk := func(n int) string { return strings.Repeat("x", n%w) + strings.Repeat(r, n/w) }
+		for _, n := range []int{31, 32} {
+			legal = append(legal, mk(n))
+		}
+		for _, n := range []int{33, 34} {
+			tooLong = append(tooLong, mk(n))
+		}
+		tooLong = append(tooLong, r+mk(32))
+	}
+	return legal, tooLong
 }
 
 // ---- text -------------------------------------------------------------------------------------
@@ -332,6 +364,13 @@ func checkEntries(got []refRelayPrice, states []feedState, want []refRelayPrice)
 	return nil
 }
 
+func mustRejectIf(knownEncoder bool, states []feedState) string {
+	if !knownEncoder {
+		return ""
+	}
+	return oversize(states)
+}
+
 func feedsCase(states []feedState, enc int32, tt *tickTable) contentCase {
 	name, known := feedsEncoderName[enc]
 	ids := make([]string, len(states))
@@ -340,6 +379,7 @@ func feedsCase(states []feedState, enc int32, tt *tickTable) contentCase {
 	}
 	return contentCase{
 		kind: "feeds", route: "feeds", tag: name, desc: fmt.Sprintf("feeds(enc=%d,signals=%+v)", enc, states),
+		mustReject: mustRejectIf(known, states),
 		install: func(b *base, ctx sdk.Context) {
 			for _, s := range states {
 				if s.Present {
@@ -384,7 +424,8 @@ func tunnelOrderCase(seq uint64, states []feedState, createdAt int64, enc int32,
 	}
 	return contentCase{
 		kind: "tunnel", route: "tunnel", tag: name, desc: fmt.Sprintf("tunnelpacket(enc=%d,seq=%d,created=%d,prices=%+v)", enc, seq, createdAt, states),
-		content: tunneltypes.NewTunnelSignatureOrder(seq, prices, createdAt, feedstypes.Encoder(enc)),
+		mustReject: mustRejectIf(known, states),
+		content:    tunneltypes.NewTunnelSignatureOrder(seq, prices, createdAt, feedstypes.Encoder(enc)),
 		want: func(int64) ([]byte, string, bool) {
 			if !known {
 				return nil, "", false
@@ -504,6 +545,15 @@ func evalContent(b *base, t tally, cs *syncCollisions, ctx sdk.Context, c conten
 		t.Violate(cfg, path, "content-bytes-of-earlier-request-changed-by-later-request", fmt.Sprintf("content returned for %s was %s and reads %s after encoding %s: requests share a buffer", b.lastDesc, short(b.lastCopy), short(b.lastOut), input))
 	}
 	b.lastOut, b.lastCopy, b.lastDesc = got, append([]byte(nil), got...), input
+	if c.mustReject != "" {
+		if err == nil {
+			detail := fmt.Sprintf("%s: %s, yet the handler produced the content %s", input, c.mustReject, short(got))
+			t.Violate(cfg, path, "content:signal-id-longer-than-32-bytes-encoded:"+c.kind, detail)
+		} else {
+			t.Saw("content:" + c.kind + ":oversize-signal-id-rejected")
+		}
+		return got
+	}
 	payload, canon, ok := c.want(unix)
 	if !ok {
 		if err != nil {
